@@ -5,9 +5,9 @@ EXTENDS ZoneFail
 Basic  == {<<b>> : b \in Behaviours}
 (* one representative per behaviour class of THIS model ("slow" = "fast", "refused" = "servfail",
    "garbage" = "drop" step for step; they differ only in the conformance binding) *)
-Classes == {<<"fast">>, <<"nxdomain">>, <<"servfail">>, <<"formerr">>, <<"drop">>}
+Classes == {<<"fast">>, <<"nxdomain">>, <<"servfail">>, <<"formerr">>, <<"drop">>, <<"badref">>}
 (* behaviour varies per attempt: network failures / FORMERR before the terminal behaviour *)
-Retry2 == {<<a, b>> : a \in {"drop", "garbage", "formerr"}, b \in {"fast", "servfail", "nxdomain"}}
+Retry2 == {<<a, b>> : a \in {"drop", "garbage", "formerr"}, b \in {"fast", "servfail", "nxdomain", "badref"}}
 Retry3 == {<<a, b, c>> : a \in {"drop"}, b \in {"garbage", "formerr"}, c \in {"slow", "refused", "drop"}}
 Retry  == {<<"fast">>, <<"servfail">>, <<"drop">>} \cup Retry2 \cup Retry3
             \cup {<<"formerr", "drop", "drop", "fast">>, <<"drop", "drop", "formerr", "formerr">>}
@@ -17,4 +17,7 @@ Corner == {<<"servfail">>, <<"refused">>, <<"slow">>}
 (* enumeration of the Init set only (the vectors handed to the conformance binding) *)
 SimScripts == Basic \cup Retry
 NextNone == FALSE /\ UNCHANGED vars
+(* the error-path reply filed under the CD value forced for the upstream walk (negative config MUT_ZCD) *)
+QKeyForced == "forced"
+BadRefs == {<<"badref">>, <<"drop">>, <<"servfail">>, <<"fast">>}
 =============================================================================
